@@ -414,7 +414,9 @@ func (b *xbuilder) load(u *ssa.UnOp, sub func(ssa.Value) *X) *X {
 			}
 		}
 		stores, esc := b.storesTo(al, map[ssa.Value]bool{})
-		if !esc && len(stores) == 1 {
+		if !esc && len(stores) == 1 && (stores[0].Parent() != u.Parent() || Precedes(stores[0], u)) {
+			// (the one assignment is executed before this read on every path: otherwise the variable can still hold
+			// its zero value here)
 			x := sub(stores[0].Val)
 			// copy so that Cell does not leak into the memoised subtree
 			y := *x
